@@ -443,6 +443,8 @@ C04_Clauses(cfg, S) ==
    \* "after retries and fallback": a node that has a fallback and has used up its budget is not finished before the
    \* fallback has been asked - its answer is the outcome of the phase
    fallbackAsked |-> C02_Clauses(cfg, S).fbAlwaysAfterN,
+   \* ... and "after retries" means the retries the node is entitled to: an attempt beyond the budget does not undo a failure
+   withinBudget  |-> C02_Clauses(cfg, S).atMostN,
    \* after the failure no further user callback of that run
    failStop     |-> \A j \in 1..Len(S) : (NoCancel(j) /\ ~cfg.flowretry) =>
                        \A i \in FailedIdx(j) : i = Len(B(j)) /\ Last(B(j)[i].evs).out = "err"
